@@ -615,6 +615,9 @@ def rule_v8(ctx):
                             revd = r2[0] == "iter" and mir.last_seg(r2[2] or "") == "rev"
                             srcs = body.trace_operand(it["args"][0]) if r2[0] == "iter" else {(("agg", r2[1], None), ())}
                             for (r3, p3) in body.trace_operand(it["args"][0], through=mir.TRANSPARENT) if r2[0] == "iter" else ():
+                                if r3[0] == "call" and (r3[2] or "") in ctx.fns:
+                                    # the range of layers is computed by a helper of the crate
+                                    sig = (("helper", r3[2]), ("helper", r3[2]), revd)
                                 if r3[0] == "agg":
                                     a = body.blocks[r3[1]]["stmts"][r3[2]]["rv"]
                                     if "Range" in (a.get("adt") or ""):
